@@ -27,6 +27,7 @@
    Not counted anywhere: spare capacity of Vec / HashMap (amortised doubling and the 7/8 load
    factor: at most a constant factor on the per-entry terms), allocator headers, stack.  These
    are runtime behaviour, measured by the job c15. *)
+From MLA Require Import Limit.
 From MLA Require Import Base Stream Blocks Writer EncLayer CompLayer Reader Repair.
 Open Scope N_scope.
 
@@ -64,6 +65,7 @@ Definition n_names (ops : list wop) : N := fold_right (fun o a => c_name o + a) 
 (* the start calls that SUCCEED in a run from s (the start inside add_file included), and the
    lengths of their names *)
 Section OkStarts.
+  Context {LIM : Limit}.
   Variable FNMAX : N.
   Variables T_START T_CONTENT T_EOA T_EOF : N.
   Variable H : bytes -> bytes.
@@ -112,6 +114,7 @@ Definition cwmem (w : cwriter) : N := COMP_FIXED + cw_buffered w + 4 * len (cw_s
 (* a sequence of Write::write calls with arbitrary buffers (write_all is such a sequence);
    returns the writer and the number of bytes accepted altogether *)
 Section CompWrites.
+  Context {LIM : Limit}.
   Variable BLOCK : N.
   Variable comp : bytes -> bytes.
   Fixpoint cw_writes (w : cwriter) (total : N) (bufs : list bytes) : cwriter * N :=
@@ -128,6 +131,7 @@ End CompWrites.
 (* the same for the encryption writer: any Write::write calls, errors ignored (the state is
    unchanged by a failed write) *)
 Section EncWrites.
+  Context {LIM : Limit}.
   Variables CHUNK CIPHERBUF : N.
   Variable ks : N -> N -> N.
   Variable tagc : N -> bytes -> bytes.
@@ -155,6 +159,7 @@ Definition lxmem (ids : list (N * bytes)) : N := LX_FIXED + LX_ENTRY * len ids +
    FileStart blocks parsed.  lx_loop_ghost_erase (MemReaders.v): forgetting the ghosts gives
    exactly Reader.lx_loop. *)
 Section LxGhost.
+  Context {LIM : Limit}.
   Variable FNMAX : N.
   Variables T_START T_CONTENT T_EOA T_EOF : N.
   Variable S : Stream.
